@@ -147,6 +147,55 @@ def end_to_end(case):
     return out
 
 
+def rejected_product(case):
+    """a complete product in which ONE identifier is a near-miss: the name of the k-th image file (also when the first names are valid), or
+    the bytes of an id inside summary.txt (bytes that are not text at all) -- open_alos2 must refuse it with a ValueError, never decode it"""
+    import ceos_alos2
+
+    from harness import imgrun, product
+
+    images = [(pol, sc or None, 2, 1) for pol, sc in case["imgs"]]
+    b = product.build_product(level="1.5", images=images, seed=case["seed"], product_id="WBDR1.5GUD", scene_id="ALOS2014410740-140829")
+    out = {"case": case, "bad": []}
+    summ = b.files["summary.txt"]
+    if case["what"] == "image-name":
+        old = b.names["images"][case["k"]]
+        new = EDITS[case["edit_name"]](old)
+        if new == old or len(new) != len(old):
+            raise checklib.Machinery(f"near-miss edit did nothing: {old} -> {new}")
+        b.files[new] = b.files.pop(old)
+        b.files["summary.txt"] = summ.replace(old.encode(), new.encode())
+        what = f"image file #{case['k'] + 1} of {len(images)} named {new!r} ({case['tag']})"
+    else:
+        old = case["target"].encode()
+        if summ.count(old) < 1:
+            raise checklib.Machinery(f"{case['target']} not in the summary")
+        i = summ.index(old) + case["at"]
+        b.files["summary.txt"] = summ[:i] + case["insert"] + summ[i:]
+        what = f"summary.txt with the bytes {case['insert']!r} inside {case['target']!r}"
+    url = imgrun.put_on_fs(b, "local", f"c15r_{case['seed']}")
+    try:
+        for attempt in (1, 2):
+            try:
+                tree = ceos_alos2.open_alos2(url, backend_options=dict(use_cache=False))
+                out["bad"].append(("near-miss-product-accepted", f"{what}: outside the language, but open_alos2 returned a tree (imagery {list(tree['imagery'].children)}, "
+                                   f"scene {dict(tree['summary/scene_specification'].attrs)})"))
+                break
+            except ValueError:
+                pass
+            except Exception as e:
+                out["bad"].append(("near-miss-product:wrong-exception", f"{what}: {type(e).__name__} instead of ValueError: {str(e)[:120]}"))
+                break
+    finally:
+        imgrun.drop_from_fs(url, "local")
+    return out
+
+
+EDITS = {"level-1.6": lambda n: n.replace("1.5", "1.6"), "mode-WRD": lambda n: n.replace("WBDR", "WRDR"), "look-X": lambda n: n.replace("WBDR", "WBDX"),
+         "month-13": lambda n: n.replace("-140829-", "-141329-"), "april-31": lambda n: n.replace("-140829-", "-140431-"), "projection-Q": lambda n: n.replace("GUD", "GQD"),
+         "orbit-letter": lambda n: n.replace("ALOS20144", "ALOS2O144"), "lower-case": lambda n: n.replace("GUD", "GUd")}
+
+
 def body(chk):
     from checks import _layoutcommon as lc
     from harness import tlc
@@ -238,7 +287,25 @@ def body(chk):
             if key not in seen:
                 seen.add(key)
                 chk.violation(f"ident-e2e:{key}", msg, {"case": res["case"]})
-    chk.cov["distinct_nontrivial"] = len(ids["products"]) + len(scenes) + len(files) + len(e2e)
+    rej = []
+    j = 0
+    for tag, edit in EDITS.items():
+        for imgs in ([("HH", ""), ("HV", "")], [("HH", "F1"), ("HH", "F2"), ("HV", "F1"), ("HV", "F2")]):
+            for k in range(len(imgs)):
+                if (j + k) % 2 and k not in (0, len(imgs) - 1):
+                    continue
+                rej.append(dict(what="image-name", tag=tag, edit=edit, imgs=imgs, k=k, seed=chk.seed + 700 + j))
+                j += 1
+    for target, at, ins in (("ALOS2014410740-140829", 16, b"\xff"), ("ALOS2014410740-140829", 5, b"\xc0\xb1"), ("WBDR1.5GUD", 9, b"\x80"), ("WBDR1.5GUD", 4, b"\xe3\x81"),
+                            ("ALOS2014410740-140829", 21, b"\xfe"), ("WBDR1.5GUD", 0, b"\xef\xbb\xbf")):
+        rej.append(dict(what="summary-bytes", target=target, at=at, insert=ins, imgs=[("HH", ""), ("HV", "")], seed=chk.seed + 800 + j))
+        j += 1
+    lc.prepare_layouts([dict(level="1.5", images=[(a, b_ or None, 2, 1) for a, b_ in imgs]) for imgs in ([("HH", ""), ("HV", "")], [("HH", "F1"), ("HH", "F2"), ("HV", "F1"), ("HV", "F2")])])
+    for res in checklib.pmap(rejected_product, [{k: v for k, v in c.items() if k != "edit"} | {"edit_name": c.get("tag")} for c in rej], chk.scratch):
+        chk.count(1)
+        for key, msg in res["bad"][:1]:
+            chk.violation(f"ident-e2e:{key}", msg, {"case": {k: str(v) for k, v in res["case"].items()}})
+    chk.cov["distinct_nontrivial"] = len(ids["products"]) + len(scenes) + len(files) + len(e2e) + len(rej)
     chk.traces(len(eres))
     chk.sample({"product_id": ids["products"][5]["id"], "expected": ids["products"][5]["decoded"], "scene_id": scenes[100]["id"], "file_name": files[7]["name"]})
     chk.assumptions += ["the decoder functions are a fast path (non-public import); the same tables are confirmed end to end through open_alos2 on a stratified sample",
